@@ -33,7 +33,7 @@ def setup(tier):
 
 def cases(tier, seed):
     out = []
-    per = 3 if tier == "quick" else 40
+    per = 3 if tier == "quick" else 120
     for c in gen.concrete_kit_classes():
         out.append({"kind": "kit", "cls": gen.class_name(c), "seed": seed, "count": per})
     for e in gen.enzyme_names():
@@ -44,7 +44,7 @@ def cases(tier, seed):
     for j in range(len(its)):
         if (j + seed) % step == 0:
             out.append({"kind": "registry", "index": j, "seed": seed})
-    out += [dict(c, kind="asm") for c in _embedded.assembly_cases(seed, 120 if tier == "quick" else 4000, features=False, rotate=False, max_chain=3)]
+    out += [dict(c, kind="asm") for c in _embedded.assembly_cases(seed, 120 if tier == "quick" else 15000, features=False, rotate=False, max_chain=3)]
     return out
 
 
